@@ -846,8 +846,9 @@ def rule_E10(prog):
         res = []
         for bi, b in enumerate(m.blocks):
             for s_ in b["stmts"]:
-                if s_["k"] == "assign" and (s_["p"]["proj"] or m.local_name(s_["p"]["l"]) is not None) and \
-                        (m.local_name(s_["p"]["l"]) is not None or s_["p"]["l"] <= m.arg_count) and \
+                # a write to the place itself: a named local / argument, or through a pointer (in a closure the captured
+                # `self` is first copied into a temporary) -- not the temporaries that merely hold a copy of its value
+                if s_["k"] == "assign" and (s_["p"]["proj"] or m.local_name(s_["p"]["l"]) is not None or s_["p"]["l"] <= m.arg_count) and \
                         term_str(G.strip(m.resolve_place(s_["p"]))) == key:
                     res.append((bi, s_))
         return res
@@ -881,7 +882,21 @@ def rule_E10(prog):
                 if sorted(map(_fmt, forms)) == sorted(map(_fmt, [norm(lin(m, opos)), norm(lin(m, npos))])):
                     return "one item under `new[j] == old[i]` of the reported positions"
             return None
-        d = norm(lin(m, L))
+        # `let run_len = self.old_current - run_start;` names the difference: look through that one name (not further:
+        # the snapshot itself must stay a name)
+        Lx = L
+        for _ in range(2):
+            lsx = G.strip(Lx)
+            if isinstance(lsx, tuple) and lsx and lsx[0] == "local" and isinstance(lsx[2], int) and lsx[2] > m.arg_count:
+                sdx = m.single_def(lsx[2])
+                if sdx and sdx[2] == "assign":
+                    rvx = m.resolve_rvalue(sdx[3])
+                    rs = G.strip(rvx)
+                    if isinstance(rs, tuple) and rs and (rs[0] == "binop" or (rs[0] == "field" and isinstance(rs[1], tuple) and rs[1] and rs[1][0] == "binop")):
+                        Lx = rvx
+                        continue
+            break
+        d = norm(lin(m, Lx))
         posk = [k for k, v in d.items() if v == 1]
         negk = [k for k, v in d.items() if v == -1]
         # (c) cursor - snapshot
